@@ -28,6 +28,7 @@ from .core import (callee_path, callee_of, strip_refs, strip_payload, edge_domin
 from .engine import Inconclusive, VERIF
 from . import table as T
 from . import panic as PN
+from . import x_ipaths
 from .dispatch import Dispatcher, VALUE
 
 INF = float("inf")
@@ -179,6 +180,192 @@ def interval_of(pred, num, subject):
     }[op]
 
 
+class Unread(Exception):
+    """The arity predicate has a form the path reader cannot interpret."""
+
+
+WIDE = ("usize", "u64", "u128", "i128")
+
+
+def _merge_iv(ivs):
+    out = []
+    for lo, hi in sorted(ivs):
+        if lo > hi:
+            continue
+        if out and lo <= out[-1][1] + 1:
+            out[-1] = (out[-1][0], max(out[-1][1], hi))
+        else:
+            out.append((lo, hi))
+    return out
+
+
+def _meet_iv(a, b):
+    return _merge_iv([(max(l1, l2), min(h1, h2)) for (l1, h1) in a for (l2, h2) in b])
+
+
+def _not_iv(a):
+    out, cur = [], 0
+    for lo, hi in _merge_iv(a):
+        if lo > cur:
+            out.append((cur, lo - 1))
+        cur = hi + 1
+    if cur != INF + 1 and cur < INF:
+        out.append((cur, INF))
+    return out
+
+
+ALL = [(0, INF)]
+
+
+class ArityReader:
+    """The accepted operand counts of one descriptor value, read from the path summaries of the predicate function
+    (rules/x_ipaths.py: helpers such as a bounds table expanded) with the descriptor's variant fixed: every path gives
+    a conjunction of questions about LEN and a result; the accepted set is the union over the paths.  Comparison
+    ladders, `matches!`, range `contains`, (Bound, Bound) tables and early returns are the same table here."""
+
+    def __init__(self, facts, fn_key, adt, len_arg):
+        self.facts, self.adt, self.len_arg = facts, adt, len_arg
+        self.b = facts.body(fn_key)
+        self._w = {}
+
+    def walker(self, variant):
+        if variant not in self._w:
+            adt = self.adt
+            w = x_ipaths.summarize(self.b, x_ipaths.loop_free_local(self.facts), max_paths=400,
+                                   known=lambda pe, a: variant if (a == adt and strip_refs(pe) == ("arg", 1)) else None)
+            if w.overflow or not w.paths or any(p.truncated for p in w.paths):
+                raise Unread("the arity predicate %s has loops or too many paths" % self.b.key)
+            self._w[variant] = w
+        return self._w[variant]
+
+    # ---- values -------------------------------------------------------------------------------------------
+    def value(self, x, num):
+        x = strip_refs(x)
+        if x[0] == "cast" and len(x) > 3:
+            inner = self.value(x[2], num)
+            if inner == ("LEN",) and x[3] not in WIDE:
+                raise NarrowedLength(x[3])
+            return inner
+        if self.len_arg is not None and x == ("arg", self.len_arg):
+            return ("LEN",)
+        if x[0] == "const":
+            v = const_value(x[1])
+            if isinstance(v, int) and not isinstance(v, bool):
+                return v
+        if x[0] == "field":
+            base = strip_refs(x[1])
+            if base[0] == "downcast" and base[2] == num[0] and strip_refs(base[1]) == ("arg", 1):
+                if num[0] == "Variadic" and len(num) == 3 and x[2] == 0 and self._payload_is_range(num):
+                    return ("bounds", ("Included", num[1]), ("Excluded", num[2]))
+                if x[2] + 1 < len(num):
+                    return num[1 + x[2]]
+            if base[0] == "field":
+                inner = self.value(base, num)
+                if isinstance(inner, tuple) and inner[0] == "bounds":      # Range { start, end }
+                    b_ = inner[1 + x[2]] if x[2] in (0, 1) else None
+                    if b_ and b_[0] != "Unbounded":
+                        return b_[1]
+        if x[0] == "agg":
+            var, ops = x[1].get("variant"), x[2]
+            adt = x[1].get("adt") or ""
+            if var in ("Included", "Excluded", "Unbounded") and "Bound" in adt:
+                if var == "Unbounded":
+                    return ("Unbounded",)
+                v = self.value(ops[0], num)
+                if isinstance(v, int):
+                    return (var, v)
+            if x[1].get("agg") == "Tuple" and len(ops) == 2:
+                a, b_ = self.value(ops[0], num), self.value(ops[1], num)
+                if all(isinstance(t, tuple) and t[0] in ("Included", "Excluded", "Unbounded") for t in (a, b_)):
+                    return ("bounds", a, b_)
+            if "ops::Range" in adt or "range::Range" in adt:
+                vs = [self.value(o, num) for o in ops]
+                if all(isinstance(v, int) for v in vs):
+                    nm = adt.rsplit("::", 1)[-1].split("<")[0]
+                    if nm == "Range" and len(vs) == 2:
+                        return ("bounds", ("Included", vs[0]), ("Excluded", vs[1]))
+                    if nm == "RangeFrom" and len(vs) == 1:
+                        return ("bounds", ("Included", vs[0]), ("Unbounded",))
+                    if nm == "RangeTo" and len(vs) == 1:
+                        return ("bounds", ("Unbounded",), ("Excluded", vs[0]))
+                    if nm == "RangeToInclusive" and len(vs) == 1:
+                        return ("bounds", ("Unbounded",), ("Included", vs[0]))
+        if x[0] == "call" and x[1] and re.search(r"RangeInclusive::<Idx>::new$", x[1]["path"]) and len(x[2]) == 2:
+            vs = [self.value(o, num) for o in x[2]]
+            if all(isinstance(v, int) for v in vs):
+                return ("bounds", ("Included", vs[0]), ("Included", vs[1]))
+        raise Unread("operand of the arity predicate not understood: %s" % show_expr(x)[:100])
+
+    def _payload_is_range(self, num):
+        for v in self.facts.adts.get(self.adt, {}).get("variants", []):
+            if v["name"] == num[0]:
+                return len(v.get("fields", [])) == 1
+        return True
+
+    # ---- questions ----------------------------------------------------------------------------------------
+    def holds(self, x, truth, num):
+        """{LEN | (x == truth)} as intervals."""
+        x = strip_refs(x)
+        while x[0] == "unop" and x[1] == "Not":
+            truth, x = not truth, strip_refs(x[2])
+        if x[0] == "const" and isinstance(const_value(x[1]), bool):
+            return ALL if const_value(x[1]) == truth else []
+        op = a = b_ = None
+        if x[0] == "binop" and x[1] in FLIP:
+            op, a, b_ = x[1], x[2], x[3]
+        elif x[0] == "call" and x[1]:
+            p = x[1]["path"]
+            if p.endswith("::contains") and ("Range" in p or "Bound" in p) and len(x[2]) == 2:
+                r, item = self.value(x[2][0], num), self.value(x[2][1], num)
+                if not (isinstance(r, tuple) and r[0] == "bounds"):
+                    raise Unread("containment in something that is not a range: %s" % show_expr(x)[:100])
+                lo = 0 if r[1][0] == "Unbounded" else (r[1][1] if r[1][0] == "Included" else r[1][1] + 1)
+                hi = INF if r[2][0] == "Unbounded" else (r[2][1] if r[2][0] == "Included" else r[2][1] - 1)
+                if item == ("LEN",):
+                    iv = _merge_iv([(lo, hi)])
+                elif isinstance(item, int):
+                    iv = ALL if lo <= item <= hi else []
+                else:
+                    raise Unread("containment of an unknown subject")
+                return iv if truth else _not_iv(iv)
+            op = _cmp_of_call(p)
+            if op and len(x[2]) == 2:
+                a, b_ = x[2][0], x[2][1]
+            else:
+                op = None
+        if op is None:
+            raise Unread("question of the arity predicate not understood: %s" % show_expr(x)[:100])
+        va, vb = self.value(a, num), self.value(b_, num)
+        if vb == ("LEN",) and va != ("LEN",):
+            va, vb, op = vb, va, FLIP[op]
+        if va == ("LEN",) and isinstance(vb, int):
+            c = vb
+            iv = {"Eq": [(c, c)], "Ne": _not_iv([(c, c)]), "Ge": [(c, INF)], "Gt": [(c + 1, INF)], "Le": [(0, c)], "Lt": [(0, c - 1)] if c > 0 else []}[op]
+            iv = _merge_iv(iv)
+            return iv if truth else _not_iv(iv)
+        if isinstance(va, int) and isinstance(vb, int):
+            t = {"Eq": va == vb, "Ne": va != vb, "Ge": va >= vb, "Gt": va > vb, "Le": va <= vb, "Lt": va < vb}[op]
+            return ALL if t == truth else []
+        raise Unread("comparison of the arity predicate not understood: %s" % show_expr(x)[:100])
+
+    def accepted(self, num):
+        """Union over the paths for descriptor `num` of (questions on the path ∧ result is true)."""
+        w = self.walker(num[0])
+        out = []
+        for p in w.paths:
+            iv = ALL
+            for key, val0 in p.order:
+                val = p.atoms.get(key, val0)
+                rw = w.raw.get((key, val)) or w.raw.get((key, val0))
+                if key[0] == "variant" or rw is None or key[0] == "int":
+                    raise Unread("the arity predicate asks something that is not a comparison: %s" % (show_expr(w.exprs[key])[:80] if key in w.exprs else key[0]))
+                iv = _meet_iv(iv, self.holds(rw[0], rw[1], num))
+            if iv:
+                iv = _meet_iv(iv, self.holds(p.result, True, num))
+            out.extend(iv)
+        return _merge_iv(out)
+
+
 def find_roles(facts, tables, disp):
     desc_adt = None
     for e in T.all_entries(tables):
@@ -247,26 +434,32 @@ def run(ctx):
         adt = roles["adt"]
         entries = T.all_entries(tables)
         ctx.floor("table entries (%s)" % cfg, len(entries), 35)
-        # ---- K1: descriptor semantics → accepted sets vs documentation
-        try:
-            vpred = variant_predicates(facts, roles["valid"][0], adt, True)
-        except NarrowedLength as nl:
-            vb = facts.body(roles["valid"][0])
-            ctx.fail("K1.length-narrowed", "length predicate (%s)" % cfg, "the operand count is converted to %s before it is compared with the descriptor: counts are checked modulo 2^bits, so surplus operands are accepted and valid long lists rejected" % nl, where=vb.where(), fn=vb.key)
-            continue
-        upred = variant_predicates(facts, roles["unary"][0], adt, False)
-        ctx.floor("descriptor variants (%s)" % cfg, len(vpred), 6)
+        # ---- K1: descriptor semantics → accepted sets vs documentation (path summaries per descriptor variant)
+        vread = ArityReader(facts, roles["valid"][0], adt, 2)
+        uread = ArityReader(facts, roles["unary"][0], adt, None)
+        vb = facts.body(roles["valid"][0])
+        ctx.floor("descriptor variants (%s)" % cfg, len(facts.variants(adt)), 6)
+        narrowed = False
         for e in entries:
-            iv = interval_of(vpred[e.num[0]], e.num, "LEN")
             s = spec.get(e.key)
             if s is None:
                 ctx.fail("K1.accepted", "%s" % e.key, "operator %r is not one of the documented operators" % e.key, facts.body(e.table.const_key).where())
                 continue
             want = [(s["min"], INF if s["max"] is None else s["max"])]
-            ctx.check(iv == want, "K1.accepted", e.key,
-                      "operator %r accepts %s operands (descriptor %s, predicate %s) but the documented set is %s" % (e.key, fmt_iv(iv), e.num, vpred[e.num[0]], fmt_iv(want)),
-                      where=facts.body(e.table.const_key).where(), nontrivial=e.num[0] in ("AtLeast", "Exactly", "Variadic"),
-                      sample={"operator": e.key, "descriptor": list(e.num), "predicate": repr(vpred[e.num[0]]), "accepted": fmt_iv(iv), "documented": fmt_iv(want)}, fn=e.table.const_key)
+            iv = None
+            try:
+                iv = vread.accepted(e.num)
+            except NarrowedLength as nl:
+                if not narrowed:
+                    ctx.fail("K1.length-narrowed", "length predicate (%s)" % cfg, "the operand count is converted to %s before it is compared with the descriptor: counts are checked modulo 2^bits, so surplus operands are accepted and valid long lists rejected" % nl, where=vb.where(), fn=vb.key)
+                narrowed = True
+            except Unread as u:
+                ctx.unread("K1.accepted", e.key, "the accepted operand counts of descriptor %s cannot be read: %s" % (e.num, u), where=vb.where(), fn=vb.key)
+            if iv is not None:
+                ctx.check(iv == want, "K1.accepted", e.key,
+                          "operator %r accepts %s operands (descriptor %s) but the documented set is %s" % (e.key, fmt_iv(iv), e.num, fmt_iv(want)),
+                          where=facts.body(e.table.const_key).where(), nontrivial=e.num[0] in ("AtLeast", "Exactly", "Variadic"),
+                          sample={"operator": e.key, "descriptor": list(e.num), "accepted": fmt_iv(iv), "documented": fmt_iv(want)}, fn=e.table.const_key)
             # an operator whose operands are all evaluated (eager / data discipline) has them all *parsed* with the operation:
             # a malformed operation anywhere among its operands is rejected whatever the data.  Moved to the lazy table,
             # the operator decides itself what gets parsed, and wrong operand counts in the parts it skips go unnoticed.
@@ -275,12 +468,20 @@ def run(ctx):
                           "operator %r is documented to evaluate all its operands but sits in the %s table: its operands are no longer all parsed (and length-checked) together with the operation" % (e.key, e.table.role),
                           where=facts.body(e.table.const_key).where(), fn=e.table.const_key)
             # ---- K2
-            uiv = interval_of(upred[e.num[0]], e.num, 1)
+            if iv is None:
+                continue
+            try:
+                uiv = uread.accepted(e.num)
+            except (Unread, NarrowedLength) as u:
+                ctx.unread("K2.unary", e.key, "the unary-acceptance predicate cannot be read for descriptor %s: %s" % (e.num, u), where=facts.body(roles["unary"][0]).where(), fn=roles["unary"][0])
+                continue
             unary_code = bool(uiv)
             unary_sem = any(lo <= 1 <= hi for lo, hi in iv)
             ctx.check(unary_code == unary_sem, "K2.unary", e.key,
-                      "unbracketed operand %s by the unary predicate (%s) but one operand is %s by the length predicate" % ("accepted" if unary_code else "rejected", upred[e.num[0]], "accepted" if unary_sem else "rejected"),
+                      "unbracketed operand %s by the unary predicate but one operand is %s by the length predicate" % ("accepted" if unary_code else "rejected", "accepted" if unary_sem else "rejected"),
                       where=facts.body(roles["unary"][0]).where(), nontrivial=e.num[0] in ("AtLeast", "Exactly", "Variadic"), fn=roles["unary"][0])
+        if narrowed:
+            continue
         missing = sorted(set(spec) - {e.key for e in entries})
         ctx.check(not missing, "K1.complete", "all documented operators bound (%s)" % cfg, "documented operators missing from the tables: %s" % missing, where=facts.body(tables[0].const_key).where())
 
